@@ -167,6 +167,7 @@ int main(int argc, char **argv) {
     while (fgets(line, sizeof line, f) && NTXT < 8192) { size_t l = strlen(line); while (l && (line[l - 1] == '\n' || line[l - 1] == '\r')) line[--l] = 0; TLDTXT[NTXT++] = strdup(line); }
     fclose(f);
     if (mc_replay) return do_replay();
+    if (RT_MALFORMED) mc_violation("noreplay-files", "csv:malformed-record", "", "", "", 0, "%s: record at line %d has an unescaped '\"' inside a quoted field (%d such quotes in the CSV files): a strict CSV reader - Text::CSV as the generators use it - stops there and silently drops the rest of the table", RT_MALFORMED_FILE, RT_MALFORMED_LINE, RT_MALFORMED);
     if (RAW.n != RT_PUNY.n) mc_violation("noreplay-files", "raw-vs-punycode-rowcount", "", "", "", 0, "raw.csv has %d rows, punycode.csv %d", RAW.n, RT_PUNY.n);
     if (NTXT != RT_PUNY.n) mc_violation("noreplay-files", "tld-domains-linecount", "", "", "", 0, "tld-domains.txt has %d lines, punycode.csv %d rows", NTXT, RT_PUNY.n);
     mc_extra_add("\"csv_rows\":%d,\"raw_rows\":%d,\"tld_domains_lines\":%d", RT_PUNY.n, RAW.n, NTXT);
